@@ -19,7 +19,10 @@ import genhist
 
 # TODO PENDING_FINDINGS: signatures of misbehaviours of the UNCHANGED library exposed by new coverage that are not yet
 # in known_findings.json; they are routed through report.known_match() and print as KNOWN-FINDING once registered.
-PENDING_FINDINGS = []
+WALK_SPELLING_SIG = "walk.info/files/dirs(path) report paths under the caller's spelling of the start path"
+C10_CACHED_PAGE_HIT = "cache_directory: scandir(path, page=...) answered from the cache ignores the page"
+C10_CACHED_PAGE_MISS = "cache_directory: scandir(path, page=...) on a cache miss stores the page as the whole directory"
+PENDING_FINDINGS = [WALK_SPELLING_SIG, C10_CACHED_PAGE_HIT, C10_CACHED_PAGE_MISS]
 
 _MT = re.compile(r"@(N|Si-?\d+)")
 _MTI = re.compile(r"\|(N|Si-?\d+)\)")
@@ -985,7 +988,7 @@ def run_c10(report):
     total = 0
     bad = []
     nontrivial = set()
-    backs = list(B.ALL) + [ReadZip, ReadTar, MultiLayered]
+    backs = list(B.ALL) + [ReadZip, ReadTar, MultiLayered] + C10_WRAPPED
     per = collections.Counter()
     for bc in backs:
         for hi, h in enumerate(hs if bc in (B.Mem, B.OS) or thorough else hs[:25]):
@@ -1020,11 +1023,28 @@ def run_c10(report):
             finally:
                 b.close()
     seen = set()
+    pending_seen = collections.Counter()
+    bad2 = []
     for name, h, p, r in bad:
-        sig = "%s: %s" % (name, re.sub(r"[0-9']+", "", r[0])[:60])
+        # directory-cache wrappers and page windows (behaviour of the unchanged library, see PENDING_FINDINGS): the
+        # page inconsistencies get their own class signature, whatever else is inconsistent is judged normally
+        if "cache_directory" in name and "after a paged scandir" in name:
+            bad2.append((name, h, p, r, C10_CACHED_PAGE_MISS))
+            continue
+        pg = [x for x in r if x.startswith("page (")]
+        if "cache_directory" in name and pg:
+            bad2.append((name, h, p, pg, C10_CACHED_PAGE_HIT))
+            r = [x for x in r if x not in pg]
+        if r:
+            bad2.append((name, h, p, r, None))
+    for name, h, p, r, sig in bad2:
+        sig = sig or "%s: %s" % (name, re.sub(r"[0-9']+", "", r[0])[:60])
         known = report.known_match(sig)
         if known:
             report.known_finding(known)
+            continue
+        if sig in PENDING_FINDINGS:
+            pending_seen[sig] += 1
             continue
         if sig in seen or len(seen) >= 10:
             continue
@@ -1035,7 +1055,8 @@ def run_c10(report):
         rule="after the calls of random histories, on every resource of the tree (+ missing paths): exists/"
              "isdir/isfile/getinfo/gettype/getsize/readbytes/listdir/scandir/filterdir/one-level walk/isempty/"
              "pages are compared with each other; non-trivial = distinct (backend, tree size, path, kind)",
-        disagreements_checked=len(bad), per_backend=dict(per), traces_validated_against_impl=total - len(bad)),
+        disagreements_checked=len(bad), per_backend=dict(per), traces_validated_against_impl=total - len(bad),
+        wrapper_objects=[bc.name for bc in C10_WRAPPED], pending_findings_seen=dict(pending_seen)),
         ["consistency is checked among the implementation's own answers; the model-level theorem is Props/C10.v"])
 
 
@@ -1096,6 +1117,96 @@ class ReadTar(ReadZip):
         return self.fs
 
 
+class WrappedLoaded(B.Backend):
+    """A wrapper object created over an already populated, from then on unchanging MemoryFS (a directory cache is
+    only meant for that situation); optionally a listing / walk was started on the wrapper and abandoned."""
+    name = "cache_directory(MemoryFS, populated)"
+    peek = False
+
+    def wrap(self, inner):
+        from fs.wrap import cache_directory
+        return cache_directory(inner)
+
+    def make(self):
+        from fs.memoryfs import MemoryFS
+        self.inner = self.fs = MemoryFS()
+        return self.fs
+
+    def load(self, h):
+        for o in h:
+            fsops.execute(self.inner, o)
+        dirs = ["/"] + [p for p, i in self.inner.walk.info() if i.is_dir]
+        self.fs = self.wrap(self.inner)
+        if self.peek:
+            for ns in (None, ["details"]):
+                for d in dirs:
+                    it = self.fs.scandir(d, namespaces=ns)
+                    next(it, None)
+                    del it
+            for it in (self.fs.walk.files(), self.fs.walk.info(search="depth"), self.fs.walk()):
+                next(it, None)
+                del it
+        return self.fs
+
+
+class WrappedLoadedPeek(WrappedLoaded):
+    name = "cache_directory(MemoryFS, populated) after abandoned scandir/walk iterators"
+    peek = True
+
+
+class ReadOnlyLoaded(WrappedLoaded):
+    name = "read_only(MemoryFS, populated)"
+
+    def wrap(self, inner):
+        from fs.wrap import read_only
+        return read_only(inner)
+
+
+class ReadOnlyLoadedPeek(ReadOnlyLoaded):
+    name = "read_only(MemoryFS, populated) after abandoned scandir/walk iterators"
+    peek = True
+
+
+class ReadOnlyCachedLoadedPeek(WrappedLoaded):
+    name = "read_only(cache_directory(MemoryFS, populated)) after abandoned scandir/walk iterators"
+    peek = True
+
+    def wrap(self, inner):
+        from fs.wrap import read_only, cache_directory
+        return read_only(cache_directory(inner))
+
+
+class SubCachedLoadedPeek(WrappedLoaded):
+    name = "cache_directory(SubFS(MemoryFS, populated)) after abandoned scandir/walk iterators"
+    peek = True
+
+    def make(self):
+        from fs.memoryfs import MemoryFS
+        self.parent = MemoryFS()
+        self.parent.writebytes("canary", b"c")
+        self.inner = self.fs = self.parent.makedirs("top/sub")
+        return self.fs
+
+    def close(self):
+        B.Backend.close(self)
+        self.parent.close()
+
+
+class WrappedLoadedPaged(WrappedLoaded):
+    name = "cache_directory(MemoryFS, populated) after a paged scandir"
+
+    def load(self, h):
+        fs = WrappedLoaded.load(self, h)
+        for d in ["/"] + [p for p, i in self.inner.walk.info() if i.is_dir]:
+            list(fs.scandir(d, page=(1, 3)))
+            list(fs.scandir(d, namespaces=["details"], page=(0, 1)))
+        return fs
+
+
+C10_WRAPPED = [WrappedLoaded, WrappedLoadedPeek, ReadOnlyLoaded, ReadOnlyLoadedPeek, ReadOnlyCachedLoadedPeek,
+               SubCachedLoadedPeek, WrappedLoadedPaged]
+
+
 # ------------------------------------------------------------------ C11
 
 def spellings(p, rnd, names):
@@ -1133,6 +1244,7 @@ def _run_last(bc, h, o):
 
 # query calls issued on ONE long-lived object with every spelling (op kinds beyond fsops.OPC are local to C11)
 LONG_QUERIES = [("getinfo",), ("getinfo0",), ("listdir",), ("scandir",), ("scandir0",), ("filterdir",), ("walkall",),
+                ("walkraw",),
                 ("exists",), ("isdir",), ("isfile",), ("isempty",), ("getsize",), ("gettype",), ("readbytes",),
                 ("openread", "rb")]
 
@@ -1156,10 +1268,11 @@ def exec_q(fs, op):
             if n == "filterdir":
                 return "ok:[" + ";".join(sorted("(%s|%s)" % (common.r_str(i.name), common.r_bool(i.is_dir))
                                                 for i in fs.filterdir(op[1]))) + "]"
-            if n == "walkall":
-                from fs.path import frombase, abspath, normpath
-                base = abspath(normpath(op[1]))
-                return "ok:[" + ";".join(sorted("(%s|%s)" % (common.r_str(frombase(base, q)), common.r_bool(i.is_dir))
+            if n in ("walkall", "walkraw"):
+                # walkall: the resources found (reported paths normalised); walkraw: the path strings as reported
+                from fs.path import abspath, normpath
+                nf = (lambda x: abspath(normpath(x))) if n == "walkall" else (lambda x: x)
+                return "ok:[" + ";".join(sorted("(%s|%s)" % (common.r_str(nf(q)), common.r_bool(i.is_dir))
                                                 for q, i in fs.walk.info(op[1]))) + "]"
             raise ValueError(n)
         except fsops.Timeout:
@@ -1196,10 +1309,11 @@ def longlived_round(bc, rnd, thorough):
     """One long-lived object: build a tree; then repeatedly (a) issue queries with SOME spellings, (b) change the
     tree, (c) issue every query with ALL the spellings of each path, back to back in one state of the one object:
     the answers for equivalent spellings must coincide (with each other - a caching wrapper may answer all of them
-    from its cache).  Returns (number of calls, number of groups, first disagreement or None)."""
+    from its cache).  Returns (number of calls, number of groups, list of disagreements)."""
     b = bc()
     calls = groups = 0
     log = []
+    soft = []
     try:
         fs = b.make()
         via = "i" if getattr(b, "setup_via_inner", False) else "w"
@@ -1252,11 +1366,14 @@ def longlived_round(bc, rnd, thorough):
                 groups += 1
                 for r in res[1:]:
                     if r[1] != res[0][1]:
-                        return calls, groups, dict(backend=bc.name, log=log[:before], query=q, path=p,
-                                                   results=res, a=res[0], b=r)
+                        d = dict(backend=bc.name, log=log[:before], query=q, path=p, results=res, a=res[0], b=r)
+                        if q[0] == "walkraw":       # reporting only: go on with the other query kinds
+                            soft.append(d)
+                            break
+                        return calls, groups, soft + [d]
     finally:
         b.close()
-    return calls, groups, None
+    return calls, groups, soft
 
 
 def run_c11(report):
@@ -1352,14 +1469,16 @@ def run_c11(report):
             ll_calls += c
             ll_groups += g_
             ll_per[bc.name] += g_
-            if d:
-                ll_bad.append(d)
+            ll_bad += d
+            if any(x["query"][0] != "walkraw" for x in d):
                 break
     total += ll_calls
     groups += ll_groups
     seen_ll = set()
     for d in ll_bad:
         sig = "%s.%s one-object" % (d["backend"], d["query"][0])
+        if d["query"][0] == "walkraw":
+            sig = WALK_SPELLING_SIG
         known = report.known_match(sig)
         if known:
             report.known_finding(known)
@@ -1401,7 +1520,9 @@ def run_c11(report):
                         "spellings back to back in one state; the answers must agree with each other"
                         % len(LONG_QUERIES),
         one_object_calls=ll_calls, one_object_groups=ll_groups, one_object_groups_per_backend=dict(ll_per),
-        one_object_disagreements=len(ll_bad)),
+        one_object_disagreements=len([d for d in ll_bad if d["query"][0] != "walkraw"]),
+        one_object_walk_path_spelling_disagreements=len([d for d in ll_bad if d["query"][0] == "walkraw"]),
+        pending_findings=list(PENDING_FINDINGS)),
         ["Linux path resolution behind OSFS is exercised, not modelled"])
 
 
